@@ -46,6 +46,8 @@ Open(n) == [k |-> "open", s |-> Nm(n), g |-> FALSE]
 Close(n) == [k |-> "close", s |-> Nm(n), g |-> FALSE]
 Empty(n) == [k |-> "empty", s |-> Nm(n), g |-> FALSE]
 Text(s) == [k |-> "text", s |-> s, g |-> FALSE]
+\* character data given as code points: '&', '<', '>' are written as references when serialised
+Chars(s) == [k |-> "chars", s |-> s, g |-> FALSE]
 Gapped(toks) == IF toks = <<>> THEN <<>> ELSE <<[toks[1] EXCEPT !.g = TRUE]>> \o Tail(toks)
 
 \* ---- contents of primitive types --------------------------------------------
@@ -71,7 +73,7 @@ RealSpecial(d) == CASE d = <<127,240,0,0,0,0,0,0>> -> "PLUS-INFINITY"
                     [] OTHER -> ""
 
 \* characters that need no escaping in character data
-PlainChar(c) == c >= 32 /\ c # 38 /\ c # 60 /\ c # 62 /\ c # 127 /\ c < 55296
+PlainChar(c) == c >= 32 /\ c # 127 /\ c < 55296
 
 \* can this value be written as XER text by this generator?
 RECURSIVE XerWritable(_, _, _)
@@ -105,7 +107,7 @@ Content(env, T0, v) ==
     [] T.k = "REAL" -> IF RealSpecial(v) # "" THEN <<Empty(RealSpecial(v))>> ELSE <<Text(RealTexts[v])>>
     [] T.k = "BITS" -> IF v.n = 0 THEN <<>> ELSE <<Text(BitText(v))>>
     [] T.k = "OCTETS" -> IF v = <<>> THEN <<>> ELSE <<Text(HexText(v))>>
-    [] T.k = "STRING" -> IF v = <<>> THEN <<>> ELSE <<Text(Utf8(v))>>
+    [] T.k = "STRING" -> IF v = <<>> THEN <<>> ELSE <<Chars(v)>>
     [] T.k = "OID" -> <<Text(ArcsText(v))>>
     [] T.k = "RELOID" -> <<Text(ArcsText(v))>>
     [] T.k \in {"SEQUENCE", "SET"} ->
@@ -123,20 +125,29 @@ Content(env, T0, v) ==
 XerTokens(env, name, T, v) == Elem(env, name, T, v)
 
 \* ---- serialisation -----------------------------------------------------------
-TokOctets(t) == CASE t.k = "open" -> <<60>> \o t.s \o <<62>>
+\* references: the predefined entities, or (layout "numeric") decimal / hexadecimal character references
+EscChar(c, layout) ==
+  IF c = 38 THEN (IF layout = "numeric" THEN <<38, 35, 51, 56, 59>> ELSE <<38, 97, 109, 112, 59>>)                 \* &#38;  &amp;
+  ELSE IF c = 60 THEN (IF layout = "numeric" THEN <<38, 35, 120, 51, 67, 59>> ELSE <<38, 108, 116, 59>>)           \* &#x3C; &lt;
+  ELSE IF c = 62 THEN (IF layout = "numeric" THEN <<38, 35, 54, 50, 59>> ELSE <<38, 103, 116, 59>>)                \* &#62;  &gt;
+  ELSE Utf8Char(c)
+NeedsRef(toks) == \E i \in DOMAIN toks : toks[i].k = "chars" /\ \E j \in DOMAIN toks[i].s : toks[i].s[j] \in {38, 60, 62}
+TokOctetsL(t, layout) ==
+                CASE t.k = "open" -> <<60>> \o t.s \o <<62>>
                   [] t.k = "close" -> <<60, 47>> \o t.s \o <<62>>
                   [] t.k = "empty" -> <<60>> \o t.s \o <<47, 62>>
                   [] t.k = "text" -> t.s
+                  [] t.k = "chars" -> ConcatAll([i \in DOMAIN t.s |-> EscChar(t.s[i], layout)])
 \* layout: "canon" (no white-space), "lf" (line feed + 4 spaces before every tag, as the usual
 \* pretty printing), "crlf-tab" (CR LF TAB), "comment" (an XML comment between elements).
 \* White-space is only inserted where it is insignificant: never next to character data.
-Gap(layout) == CASE layout = "canon" -> <<>>
+Gap(layout) == CASE layout \in {"canon", "numeric"} -> <<>>
                  [] layout = "lf" -> <<10, 32, 32, 32, 32>>
                  [] layout = "crlf-tab" -> <<13, 10, 9>>
                  [] layout = "comment" -> <<32, 60, 33, 45, 45, 32, 120, 32, 45, 45, 62, 10>>   \* " <!-- x -->\n"
 Ser(toks, layout) ==
   ConcatAll([i \in DOMAIN toks |->
-     (IF toks[i].g THEN Gap(layout) ELSE <<>>) \o TokOctets(toks[i])])
+     (IF toks[i].g THEN Gap(layout) ELSE <<>>) \o TokOctetsL(toks[i], layout)])
 
 \* empty-element form: <a></a> may be written <a/>
 RECURSIVE Collapse(_)
